@@ -84,6 +84,9 @@ def rows_from_archive(text, w):
 
 
 def run(ctx):
+    ctx.mc('System', 'MC_System.cfg', require_actions=['SigCreate', 'QueryFiles', 'QuerySigsAny', 'DistSigsAny'], workers=8,
+           overrides=dict(MaxCmds=4 if ctx.tier == 'quick' else 5),
+           note='command histories (signatures create / query files / query -s / dist): a genome gives the same row through every channel, batch and position; no mismatched comparison; database immutable')
     ctx.mc('CalcFiles', 'MC_CalcFiles.cfg', workers=8, note='signature computation of a batch keeps file order under every completion order (shared with C13)')
     ctx.mc('BulkDist', 'MC_BulkDist.cfg', workers=8, overrides=dict(MaxQ=2, MaxR=3, MaxSel=3, MaxChunk=3), note='distance matrix of a batch: row i holds the distances of query i (shared with C05)')
     ctx.mc('ClassifyAlgo', 'MC_ClassifyAlgo.cfg', workers=16, overrides=dict(N=2, MaxRank=1), note='per-row classification (shared with C03)')
